@@ -21,6 +21,7 @@ the first U+0020: `scheme_needs_a_space` below.)
 The macaroon codec is a parameter: `dec t` is the location of `macaroon.Decode t`, `none` if it fails.
 -/
 import Macaroon.Lemmas.Header
+import Macaroon.Lemmas.HeaderBundle
 import Macaroon.Generated.Consts
 
 namespace Macaroon.Props.C19
@@ -294,6 +295,32 @@ theorem flyio_permission_and_discharge (dec : Bytes → Option Bytes) (hdr : Lis
 
 /-! ### Bundle tokeniser -/
 
+/-- **the two classifications agree.**  With `macaroon.Decode` instantiated by the concrete codec
+(`decLoc t` = the location of the decoded token), on every header `Parse` accepts the permission
+tokens `FindPermissionAndDischargeTokens` returns are exactly the payloads of the entries the bundle
+tokeniser classifies as permission tokens (`isPermAt`: a well-formed macaroon at the issuer's
+location), and its discharge tokens exactly those the bundle treats as discharges (`isDisAt`), both in
+header order — so `format.go` and `bundle/tokens.go` tell the two kinds apart the same way -/
+theorem split_agrees_with_bundle (pl : Bytes) (h : List Char) (toks : List Bytes) (hp : parse h = .ok toks) :
+    (splitByLocation Lemmas.decLoc pl toks).1 =
+      ((parseToks h).filter fun ht => Bundle.isPermAt pl (Bundle.ofHeaderTok ht)).filterMap Tok.raw? ∧
+    (splitByLocation Lemmas.decLoc pl toks).2 =
+      ((parseToks h).filter fun ht => Bundle.isDisAt pl (Bundle.ofHeaderTok ht)).filterMap Tok.raw? := by
+  rw [splitByLocation_eq, ← parse_ok_parseToks h toks hp]
+  exact Lemmas.split_filterMap pl (parseToks h)
+
+/-- entry by entry: the bundle's view of a header entry against the location test on its payload -/
+theorem bundle_token_class (pl : Bytes) (ht : Tok) :
+    (∀ raw, ht.raw? = some raw →
+      (Bundle.isPermAt pl (Bundle.ofHeaderTok ht) = (Lemmas.decLoc raw == some pl)) ∧
+      (Bundle.isDisAt pl (Bundle.ofHeaderTok ht) =
+        (match Lemmas.decLoc raw with | some l => l != pl | none => false))) ∧
+    (ht.raw? = none → Bundle.isPermAt pl (Bundle.ofHeaderTok ht) = false ∧
+      Bundle.isDisAt pl (Bundle.ofHeaderTok ht) = false) :=
+  Lemmas.ofHeaderTok_class pl ht
+
+
+
 /-- Total classification: `parseToks` maps every comma-separated part to exactly one typed token,
 which carries the trimmed text of the part and is classified by `Classifies` — no `_`, or a label
 other than the three macaroon labels: `nonMacaroon`; macaroon label with an undecodable payload:
@@ -384,6 +411,8 @@ example : parsePermissionAndDischarge (fun _ => some [1]) "fm2_QQ==".toList [1] 
 example : parsePermissionAndDischarge (fun _ => some [1]) "fm2_QQ==".toList [2] = .error .noPermission := by decide
 example : parsePermissionAndDischarge (fun _ => some [1]) "fm2_QQ==,fm2_QQ==".toList [1] = .error .multiplePermission := by
   decide
+/-- hypothesis of `split_agrees_with_bundle` -/
+example : ∃ toks, parse "FlyV1 fm2_QQ==,fm1a_Qg==".toList = .ok toks := ⟨[[65], [66]], by decide⟩
 
 end Macaroon.Props.C19
 
@@ -421,3 +450,5 @@ end Macaroon.Props.C19
 #print axioms Macaroon.Props.C19.trim_spec
 #print axioms Macaroon.Props.C19.tokeniser_agrees_with_parse
 #print axioms Macaroon.Props.C19.tokeniser_more_lenient
+#print axioms Macaroon.Props.C19.split_agrees_with_bundle
+#print axioms Macaroon.Props.C19.bundle_token_class
